@@ -215,6 +215,8 @@ def check(run) -> None:
         for clause, msg in fails:
             run.fail(clause, {"variant": c["variant"], "clause": clause}, cc, f"[{c['variant']}] {msg}", replay={"case": cc})
     run.sample({"history": cases[len(cases) // 2]["h"], "consts": cases[len(cases) // 2]["consts"]}, cap=3)
+    from . import c04_sessions
+    c04_sessions.check(run)
     run.exhaustive = True
     run.assumptions += ["the store double is all-or-nothing per call (a raising call applies nothing)",
                         "approved lists are injected through the documented orchestrator.t3_deliberate override; the real t4_filter approves them unchanged (magnitudes within all caps)"]
